@@ -25,7 +25,7 @@ SHORTHAND_FORMS = [
 
 EXPR_FORMS = SHORTHAND_FORMS + [
     "x", "a.b", "a.b[c.d]['e'][0]", "a[b]", "a['k']", "a[0]", "a[-1]", "items",
-    "'s'", '"s"', "''", '"a${x}b"', "'${ x | upcase }'", '"${ a.b }${ 1 }"', '"${ \'n${x}\' }"',
+    "'s'", '"s"', "''", '"\\u12\ud8004"', "'\\uD8\udc00a'", 'a["\\u\ud800abc"]', '"\\uDC00"', '"a${x}b"', "'${ x | upcase }'", '"${ a.b }${ 1 }"', '"${ \'n${x}\' }"',
     "x | upcase", "x | default: 1", "x | default: 'd', allow_false: true", "items | map: 'a' | first",
     "a if b else c", "a if b", "x | upcase if b else y | downcase", "a if b else c || upcase",
     "(1..3)", "(a..b)", "(1..x)", "('1'..\"3\")", "(x..y) | first",
@@ -324,6 +324,9 @@ def shaped_values() -> list[Any]:
             [Decimal("NaN"), Decimal(1), 2], [Decimal("sNaN"), 1.5], {"a": Decimal("sNaN")}, dd, dd2,
             range(0, 0), range(5, 0, -1),
             collections.OrderedDict(a=1), collections.Counter("aab"), frozenset([1, 2]), {1, 2}]
+    # markup that html.parser has no rule for, and date patterns / pattern letters Babel may not know
+    out += ["<![foo[x]]>", "a<b>c</b><![if x]>d<![endif]><![bar[y]]>e", "<!x", "<?php x", "<![CDATA[x", "</", "<a b='", "<!--x", "<!DOCTYPE [<!x>]>",
+            "g", "yyyy ggg RR", "EEEE, d MMMM y", "%Y-%m-%d", "short", "qqqqqq", "'", "{0}"]
     # timestamps around what the platform's C library can represent, and date / time objects
     import datetime
 
